@@ -4,7 +4,7 @@ E3 over histories of replacements (depth 2 quick / 3 thorough) on typed 6-atom c
 an orthorhombic and a tilted cell: (i) full tables and terms of all four kinds inside, outside and
 across the matched region, (ii) no terms and no tables, (iii) terms without coefficient tables,
 (iv) atom types but no pair table and no terms (the CIF workflow) with parameterised patterns,
-(v) coefficient tables but zero terms, (vi) extra CIF columns.  Operations: replace with 9 pattern
+(v) coefficient tables but zero terms, (vi) extra CIF columns.  Operations: replace with 10 pattern
 pairs (terms on retained atoms only / on inserted atoms / mixed, listed forwards and backwards
 relative to existing terms, element swap, parameterised self-replacement, empty) x replace_all.
 Oracle on every transition: resolved view = RefStructure.replace (every pattern term once between the
@@ -42,6 +42,7 @@ PAIRS = [
     ('O -> S (single-atom swap)', 'O', ['S'], [0 * STEP], [], [], [], []),
     ('O -> O-H (retained + bonded inserted atom)', 'O', ['O', 'H'], [0 * STEP, (0.3, 0.9, 0.1)], [(1, 0)], [], [], []),
     ('C-N-O-C -> same 4 atoms with dihedral and improper reversed', 'CNOC', ['C', 'N', 'O', 'C'], [0 * STEP, 1 * STEP, 2 * STEP, 3 * STEP], [(0, 1)], [], [(3, 2, 1, 0)], [(3, 2, 0, 1)]),
+    ('C-N-O -> O, N, C listed in reverse with a bond and an angle', 'CNO', ['O', 'N', 'C'], [2 * STEP, 1 * STEP, 0 * STEP], [(0, 1)], [(0, 1, 2)], [], []),
 ]
 SEARCH = {'CNO': ['C', 'N', 'O'], 'NOC': ['N', 'O', 'C'], 'O': ['O'], 'CNOC': ['C', 'N', 'O', 'C']}
 KF_SIG = 'CIF-workflow:pair-table-misaligned'
